@@ -296,11 +296,65 @@ Qed.
 
 Lemma kl_sf_sym nr rad i j : kl_sf G K nr rad i j = kl_sf G K nr rad j i.
 Proof.
-  unfold kl_sf. apply map_ext. intros t. f_equal. f_equal. f_equal. rops. unfold two. rops. ring.
+  unfold kl_sf. apply map_ext. intros t. f_equal. f_equal. f_equal. f_equal. rops. unfold two. rops. ring.
 Qed.
 
 Lemma Dsf_sym nr rad k k' s : Dsf nr rad k k' s = Dsf nr rad k' k s.
 Proof. unfold Dsf. rewrite kl_sf_sym. reflexivity. Qed.
+
+(* ---- the clip of the squared separation at 0 (guard against rounding residues) is the identity over R ---- *)
+
+Lemma sep2_nonneg a b t : 0 <= a -> 0 <= b -> 0 <= (a * a + b * b) - 2 * a * b * cos t.
+Proof.
+  intros Ha Hb. destruct (COS_bound t) as [_ Hc].
+  assert (H1 : 0 <= a * b) by (apply Rmult_le_pos; assumption).
+  assert (H2 : 0 <= (a * b) * (1 - cos t)) by (apply Rmult_le_pos; lra).
+  pose proof (Rle_0_sqr (a - b)) as H3. unfold Rsqr in H3. lra.
+Qed.
+
+Lemma nmax_clip_id x : 0 <= x -> nmax O x (nzero O) = x.
+Proof.
+  intros Hx. unfold nmax. rops. destruct (Rltb x 0) eqn:E; [|reflexivity].
+  apply Rltb_true in E. lra.
+Qed.
+
+Lemma nth_nonneg (rad : list R) k : Forall (fun r => 0 <= r) rad -> 0 <= nth k rad 0.
+Proof.
+  intros Hf. destruct (lt_dec k (length rad)) as [H|H].
+  - rewrite Forall_forall in Hf. apply Hf. apply nth_In. exact H.
+  - rewrite nth_overflow by lia. lra.
+Qed.
+
+(* cov2 uses the Kolmogorov structure function of the true separation of the polar points
+   (r_k, theta_s), (r_k', 0):  |x - x'|^2 = r_k^2 + r_k'^2 - 2 r_k r_k' cos(theta_s) *)
+Theorem Dsf_is_kolmogorov_of_separation : forall nr rad k k' s,
+  Forall (fun r => 0 <= r) rad -> (s < 5 * nr)%nat ->
+  Dsf nr rad k k' s
+  = stf_kolmogorov O (5 / 10 * sqrt ((nth k rad 0 * nth k rad 0 + nth k' rad 0 * nth k' rad 0)
+                                      - 2 * nth k rad 0 * nth k' rad 0 * cos (INR s * 2 * PI / INR (5 * nr)))).
+Proof.
+  intros nr rad k k' s Hf Hs. unfold Dsf, kl_sf. rewrite nth_map_seq by exact Hs.
+  set (a := nth k rad 0). set (b := nth k' rad 0).
+  assert (Ha : 0 <= a) by (apply nth_nonneg; exact Hf).
+  assert (Hb : 0 <= b) by (apply nth_nonneg; exact Hf).
+  rewrite nmax_clip_id.
+  - unfold kz, two. rops. rewrite <- !INR_IZR_INZ. first [reflexivity | (f_equal; f_equal; f_equal; ring)].
+  - unfold kz, two. rops.
+    pose proof (sep2_nonneg a b (IZR (Z.of_nat s) * 2 * PI / IZR (Z.of_nat (5 * nr))) Ha Hb). lra.
+Qed.
+
+Theorem gkl_radii_nonneg : forall ri nr, Forall (fun r => 0 <= r) (gkl_radii O ri nr).
+Proof.
+  intros ri nr. unfold gkl_radii. apply Forall_forall. intros r Hr. apply in_map_iff in Hr.
+  destruct Hr as [k [<- _]]. apply sqrt_pos.
+Qed.
+
+Corollary Dsf_model_radii : forall ri nr k k' s, (s < 5 * nr)%nat ->
+  let rad := gkl_radii O ri nr in
+  Dsf nr rad k k' s
+  = stf_kolmogorov O (5 / 10 * sqrt ((nth k rad 0 * nth k rad 0 + nth k' rad 0 * nth k' rad 0)
+                                      - 2 * nth k rad 0 * nth k' rad 0 * cos (INR s * 2 * PI / INR (5 * nr)))).
+Proof. intros ri nr k k' s Hs rad. apply Dsf_is_kolmogorov_of_separation; [apply gkl_radii_nonneg | exact Hs]. Qed.
 
 (* the azimuthal double sum for two rows of the azimuthal basis against an even sequence *)
 Lemma az_row_conv nord N o o' (d : nat -> R) :
@@ -813,3 +867,5 @@ Print Assumptions kl_diagonalises_order_p.
 Print Assumptions kl_diagonalises_cross_order.
 Print Assumptions kl_diagonalises_order_0.
 Print Assumptions kl_modes_diagonalise_covariance.
+Print Assumptions Dsf_is_kolmogorov_of_separation.
+Print Assumptions gkl_radii_nonneg.
